@@ -643,6 +643,11 @@ func ProcessAlias(data []any, as string) []any {
 	}
 	slice := make([]any, len(data))
 	for i, j := range data {
+		// an inner array of a multi-dimensional source keeps its place: its rows get the alias
+		if inner, ok := j.([]any); ok {
+			slice[i] = ProcessAlias(inner, as)
+			continue
+		}
 		slice[i] = Map{
 			as: j,
 		}
